@@ -99,6 +99,13 @@ class World:
         self.base_path = base_path
         self.users = [u.make(base_path) for u in self.user_specs]
         factory = spyio.make_spy_factory(base_cls, self.spy)
+        self.vexec = None
+        if self.backend == "vasync":
+            # AsyncPathIO on an executor whose jobs take virtual time (a slow disk under the virtual clock)
+            import functools
+
+            self.vexec = simnet.VirtualExecutor(self.loop)
+            factory = functools.partial(factory, executor=self.vexec)
         self.server = aioftp.Server(self.users, path_io_factory=factory, **self.kw)
         await self.server.start(self.net.host, self.port)
         return self
